@@ -63,6 +63,10 @@ Theorem C08_dropped_moves_preserve : forall Lc ren keep,
 Proof.
   intros Lc ren keep H M sem cs Hrv st st' HR.
   destruct (dropped_flags_dead_with_sound _ _ _ H) as (Hl & Hw & Hd).
+  assert (Hd' : forall i o, nth_error keep i = Some false -> nth_error ren i = Some o ->
+            (droppable o = true \/ skip_like M sem o) /\
+            forall c, In c (cdefs o) -> flagK c /\ ~ live_out_c ren i c).
+  { intros i o Hk Hn. destruct (Hd i o Hk Hn) as [Ha Hb]. split; [left; exact Ha | exact Hb]. }
   split; intros k.
   - eapply erase_fwd; eauto using flagK_not_call_in.
   - eapply erase_bwd; eauto using flagK_not_call_in.
